@@ -32,6 +32,7 @@
 
 
 #include <algorithm>
+#include <limits>
 
 
 
@@ -1065,6 +1066,8 @@ WideStringToIntegral(
         // OK, now we know we have a valid string, so start converting...
         Type    theResult = 0;
 
+        const Type  theMax = std::numeric_limits<Type>::max();
+
         // Consume any leading whitespace (which we allow)
         while(isXMLWhitespace(*theString) == true)
         {
@@ -1082,9 +1085,20 @@ WideStringToIntegral(
         {
             if (*theString >= XalanUnicode::charDigit_0 && *theString <= XalanUnicode::charDigit_9)
             {
-                theResult *= 10;
+                const Type  theDigit = Type(*theString - XalanUnicode::charDigit_0);
 
-                theResult += *theString - XalanUnicode::charDigit_0;
+                // A value that is too large for the type stays at the
+                // largest value, rather than overflowing.
+                if (theResult > (theMax - theDigit) / 10)
+                {
+                    theResult = theMax;
+                }
+                else
+                {
+                    theResult *= 10;
+
+                    theResult += theDigit;
+                }
 
                 ++theString;
             }
